@@ -22,6 +22,7 @@ def record(cfg, hist):
         w = World(cfg)
         marks = [len(lg.log)]
         rules_after = [dict(w.m.rules)]
+        ever_pages, ever_links = set(), collections.Counter()
         try:
             for op in hist:
                 tr = w.apply(op)
@@ -30,10 +31,21 @@ def record(cfg, hist):
                     return None
                 marks.append(len(lg.log))
                 rules_after.append(dict(w.m.rules))
+                if op[0] == "clear" or op is hist[-1]:
+                    pass
+                # what a request boundary reports (a clear makes the completed history report
+                # less than an earlier boundary did: a cut inside the clear may still show the
+                # state before it)
+                pg, lk = snapshot(w.t, w.TraphException)
+                ever_pages |= pg
+                for k_, v_ in lk.items():
+                    ever_links[k_] = max(ever_links[k_], v_)
         except Disabled:
             w.close()
             return None
-        final = snapshot(w.t, w.TraphException)
+        if not hist:
+            ever_pages, ever_links = snapshot(w.t, w.TraphException)
+        final = (ever_pages, ever_links)
         default = w.m.default
         w.close()
     return list(lg.log), marks, final, rules_after, default
